@@ -2,9 +2,10 @@
 C01 — Broker delivers each message to exactly the matching subscriptions, in order.
 -/
 import Proofs.Lemmas.Router.Frame
+import Proofs.Lemmas.Router.Rp3_ReqRun
 import Proofs.Props.C12
 namespace C01
-open Router
+open Router Router.Rp3 CommitLog
 
 /-- the router's notion of "topic matches filter" is the MQTT relation (C12) on valid inputs,
     including this code base's rule that `$`-topics match no filter -/
@@ -40,5 +41,400 @@ theorem publish_goes_to_exactly_the_matching_filters (s s' : RState) (topic : St
         exact List.count_pos_iff.mp (by omega)
     · simp at h
   · simp at h
+
+/-! ### C01.1 `log_content`: coherence of the topic→filters cache, and what an accepted publish
+    does to the filter logs -/
+
+/-- C01.1 (invariant). In EVERY reachable state (any ops, any oracle choices; configuration with
+    positive segment limits) the three maps of the data log are coherent (`MapsConsistent`):
+    `filter_indexes` maps a filter to `i` exactly when slot `i` of `native` holds that filter (so
+    indexes are valid and pairwise distinct); a cached `publish_filters` entry for a topic lists,
+    without repetition, exactly the indexes of the filters that match the topic; and every filter
+    log is a well-formed commit log representing an append history (C13 `Rep`). -/
+theorem maps_consistent (cfg : Config) (h1 : 1 ≤ cfg.maxSegmentSize) (h2 : 1 ≤ cfg.maxSegmentCount)
+    (s : RState) (hr : Reachable cfg s) :
+    MapsConsistent s ∧
+    (∀ f i, alookup f s.datalog.filterIndexes = some i ↔
+        ∃ fd, s.datalog.native[i]? = some fd ∧ fd.filter = f) ∧
+    (∀ topic v, alookup topic s.datalog.publishFilters = some v →
+        v.Nodup ∧ ∀ i, i ∈ v ↔ ∃ fd, s.datalog.native[i]? = some fd ∧ topicMatches topic fd.filter = true) ∧
+    (∀ fd ∈ s.datalog.native, ∃ hist : List Pub, Rep (logC fd.log) hist) := by
+  have hi := reachable_inv h1 h2 hr
+  refine ⟨hi.maps, ?_, fun topic v hv => hi.maps.cache_spec hv, ?_⟩
+  · intro f i
+    have := hi.maps.lookup_iff f i
+    unfold DataLog.filterIdx? at this
+    rw [this]
+    cases s.datalog.native[i]? <;> simp
+  · intro fd hfd
+    exact hi.logs fd.log (List.mem_map.mpr ⟨fd, hfd, rfl⟩)
+
+/-- C01.1 (the invariant also holds INSIDE steps). `DLInv` (= `MapsConsistent` + well-formed filter
+    logs + positive segment limits) holds in every reachable state and is preserved by the handling
+    of every single packet of a batch, so every call of `append_to_commitlog` / `forward_device_data`
+    inside a step sees a coherent data log — which is the hypothesis of the theorems below. -/
+theorem datalog_invariant (cfg : Config) (h1 : 1 ≤ cfg.maxSegmentSize) (h2 : 1 ≤ cfg.maxSegmentCount) :
+    (∀ s, Reachable cfg s → DLInv s) ∧
+    (∀ s s' id cid pkt fl fl', DLInv s → handlePacket s id cid pkt fl = .ok (s', fl') → DLInv s') ∧
+    (∀ s s' op o, DLInv s → step s op = .ok (s', o) → DLInv s') :=
+  ⟨fun _ hr => reachable_inv h1 h2 hr, fun _ _ _ _ _ _ _ hi h => handlePacket_inv hi h,
+   fun _ _ _ _ hi h => step_inv hi h⟩
+
+/-- C01.1 (inductive core, cache fill). `DataLog::matches` preserves coherence and answers with a
+    permutation of the matching filters' indexes — from the cache or freshly computed, for every
+    hash-map order the oracle supplies. -/
+theorem matches_preserves_coherence (s s' : RState) (topic : String) (v : List Nat) (hi : DLInv s)
+    (h : dlMatches s topic = .ok (s', v)) :
+    DLInv s' ∧ v.Nodup ∧
+    ∀ i, i ∈ v ↔ ∃ fd, s.datalog.native[i]? = some fd ∧ topicMatches topic fd.filter = true := by
+  obtain ⟨h1, hp, _, _⟩ := dlMatches_inv hi h
+  exact ⟨h1, hp.nodup_iff.mpr (expectedIdxs_nodup hi.maps topic),
+    fun i => by rw [hp.mem_iff, mem_expectedIdxs hi.maps]⟩
+
+/-- C01.1 (inductive core, new filter). `next_native_offset` preserves coherence: a new filter gets
+    the next index and is added to every cached topic it matches. -/
+theorem new_filter_preserves_coherence (s : RState) (filter : String) (hi : DLInv s) :
+    DLInv (nextNativeOffset s filter).1 :=
+  (nextNativeOffset_inv hi).1
+
+/-- C01.1 `log_content`. In a state satisfying the invariant (every reachable state and every
+    state inside a step, `datalog_invariant`), when `append_to_commitlog` accepts a publish, the
+    publish (retain flag cleared, same payload and QoS, the topic it was sent with — or the topic
+    its alias resolves to) is appended to the log of EVERY filter that matches the topic, exactly
+    once, and to no other log; also when the answer comes from the `publish_filters` cache. -/
+theorem log_content (s s' : RState) (hi : DLInv s) (id : Nat) (p : Pub)
+    (h : appendToCommitlog s id p = .ok (s', none)) :
+    ∃ (p1 : Pub) (topic : String), utf8? p1.topic = some topic ∧ p1.payload = p.payload ∧ p1.qos = p.qos ∧
+      (p.alias = none ∨ p.topic.isEmpty = false → p1.topic = p.topic) ∧
+      ∀ (i : Nat), s'.datalog.native[i]? = (s.datalog.native[i]?).map (fun fd =>
+        if topicMatches topic fd.filter then
+          { fd with log := (fd.log.append { p1 with retain := false } (pubSize p1)).1, waiters := [] }
+        else fd) := by
+  obtain ⟨c, s1, p1, topic, hc, hres, htop, hdel⟩ := appendToCommitlog_accept h
+  obtain ⟨e1, _, _, e4, e5, _, _, e8⟩ := resolveAlias_spec hres
+  have hi1 : DLInv s1 := hi.of_dkey (resolveAlias_dkey hres)
+  have hi2 : DLInv ((updateRetained s1 topic p1).g (.accepted (some id) p1 topic)) :=
+    hi1.of_dkey (by rw [dkey_g, updateRetained_dkey])
+  obtain ⟨hnat, _⟩ := deliver_spec hi2 hdel
+  refine ⟨p1, topic, htop, e4, e5, e8, ?_⟩
+  intro i
+  rw [hnat i]
+  have : ((updateRetained s1 topic p1).g (.accepted (some id) p1 topic)).datalog.native = s.datalog.native := by
+    show (updateRetained s1 topic p1).datalog.native = _
+    rw [(updateRetained_same s1 topic p1).1, e1]
+  rw [this]
+  rfl
+
+/-- C01.1 with C12: for a valid topic and valid filters the logs that receive the publish are
+    exactly those whose filter matches the topic in the MQTT sense. -/
+theorem log_content_mqtt (s s' : RState) (hi : DLInv s) (id : Nat) (p : Pub)
+    (h : appendToCommitlog s id p = .ok (s', none)) :
+    ∃ (p1 : Pub) (topic : String), utf8? p1.topic = some topic ∧ p1.payload = p.payload ∧
+      ∀ (i : Nat) (fd : FilterData), s.datalog.native[i]? = some fd →
+        Topic.validTopic topic.toList = true → Topic.validFilterB fd.filter.toList = true →
+        (Topic.MatchesSpec topic.toList fd.filter.toList →
+          s'.datalog.native[i]? = some { fd with log := (fd.log.append { p1 with retain := false } (pubSize p1)).1, waiters := [] }) ∧
+        (¬ Topic.MatchesSpec topic.toList fd.filter.toList → s'.datalog.native[i]? = some fd) := by
+  obtain ⟨p1, topic, ht, hp, _, _, hall⟩ := log_content s s' hi id p h
+  refine ⟨p1, topic, ht, hp, ?_⟩
+  intro i fd hfd hvt hvf
+  have hm := router_matching_is_mqtt topic fd.filter hvt hvf
+  rw [hall i, hfd]
+  constructor
+  · intro hs; simp [hm.mpr hs]
+  · intro hs
+    have : ¬ topicMatches topic fd.filter = true := fun e => hs (hm.mp e)
+    simp [this]
+
+/-- C01.1 (history form). The log of a matching filter then represents its old history extended by
+    exactly this publish. -/
+theorem log_content_history (fd : FilterData) (hist : List Pub) (hrep : Rep (logC fd.log) hist) (p : Pub) :
+    Rep (logC (fd.log.append p (pubSize p)).1) (hist ++ [p]) :=
+  clog_append_rep fd.log hist hrep p (pubSize p)
+
+/-! ### C01.2 sweep correctness -/
+
+/-- C01.2 (a sweep forwards exactly what it reads). One `forward_device_data` for a non-shared
+    request that is not stopped by a full inflight window: it reads `n` entries from the request's
+    cursor in the filter's log — after the retained replay if the request still owes one — and
+    pushes to the connection's link, and to no other link, exactly one `Forward` per publish, in
+    log order (packet ids aside; `Unschedule` follows if the buffer is now full); the request comes
+    back with the continuation cursor; the logs are untouched. -/
+theorem sweep_forwards_exactly_the_read (s s' : RState) (id : Nat) (c : Conn) (req req' : DataRequest)
+    (st : ConsumeStatus) (hc : getConn s id = some c) (hplain : req.group = none)
+    (h : forwardDeviceData s id req = .ok (s', req', st)) (hst : st ≠ .inflightFull) :
+    ∃ (replay : List Pub) (n : Nat) (fd : FilterData),
+      s.datalog.native[req.filterIdx]? = some fd ∧
+      (req.forwardRetained = false → replay = []) ∧
+      replay.length + n = (if req.qos ≠ 0 then c.out.freeSlots else s.config.maxOutgoingPacketCount) ∧
+      (getLink s' c.link).obuf.map Notif.noPkid =
+        (getLink s c.link).obuf.map Notif.noPkid ++
+        (replay.map (fun p => (p, none)) ++ (fd.log.readv req.cursor n).1.map (fun e : Pub × Router.Cursor => (e.1, some e.2))).map
+          (fwdOf req.qos (sweepAlias c req.filter).2
+            ((aliasesFor c req.filter).bind (fun b => alookup req.filter b.aliases)).isSome
+            (alookup req.filter c.subscriptionIds)) ++
+        (if st = .bufferFull then [Notif.unschedule] else []) ∧
+      (∀ l, l ≠ c.link → getLink s' l = getLink s l) ∧
+      req' = { req with forwardRetained := false, cursor := (posNext (fd.log.readv req.cursor n).2).1 } ∧
+      s'.datalog = s.datalog := by
+  have hg : reqGroup s req = none := by unfold reqGroup; rw [hplain]; rfl
+  obtain ⟨s1, rp, n, fd, hr, hfd, hreq, hobuf, hother, hdl, _, _, _⟩ := sweep_plain hc hg h hst
+  obtain ⟨_, hlen, hnone, hfr⟩ := sweepRetained_spec hr
+  have hrp : rp = (rp.map (·.1)).map (fun p => (p, none)) := by
+    rw [List.map_map]
+    conv => lhs; rw [← List.map_id rp]
+    apply List.map_congr_left
+    intro pc hpc
+    have := hnone pc hpc
+    obtain ⟨a, b⟩ := pc
+    simp only at this; subst this; rfl
+  refine ⟨rp.map (·.1), n, fd, hfd, ?_, ?_, ?_, hother, hreq, hdl⟩
+  · intro hf; rw [(hfr hf).1]; rfl
+  · rw [List.length_map, hlen]; rfl
+  · rw [hobuf, List.map_append, List.map_append, hreq, sweepNotifs_noPkid]
+    unfold sweepPubs
+    rw [← hrp]
+    have : List.map Notif.noPkid (if st = .bufferFull then [Notif.unschedule] else []) =
+        (if st = .bufferFull then [Notif.unschedule] else []) := by split <;> rfl
+    rw [this]; rfl
+
+/-- C01.2 (content of a forward). The forward built for a log entry keeps its payload, retain and
+    dup flags, carries the subscription's granted QoS and the entry's own cursor, and the entry's
+    topic — except that the topic is left empty when a broker topic alias for this filter was
+    already established (the client resolves the alias). -/
+theorem forward_carries_entry (qos : Nat) (alias : Option Nat) (existed : Bool) (subId : Option Nat)
+    (p : Pub) (cur : Option Router.Cursor) :
+    ∃ p', fwdOf qos alias existed subId (p, cur) = .forward p' cur ∧ p'.payload = p.payload ∧ p'.qos = qos ∧
+      p'.retain = p.retain ∧ p'.dup = p.dup ∧ p'.topic = (if existed then [] else p.topic) := by
+  obtain ⟨a, b, c, d, e⟩ := mkForward_fields qos alias existed subId p
+  exact ⟨_, rfl, a, b, c, d, e⟩
+
+/-- C01.2 with C13 `readv_spec` (through the bridge to the router's copy of the commit log). The
+    entries a sweep reads from an issued cursor are the next `≤ n` entries of the filter log's
+    history from the cursor's position `a`: values `take n (drop a hist)`, offsets `a, a+1, …`
+    (contiguous: no gap, no repeat); the continuation stands right behind them, is issued again,
+    and `Done` is reported iff nothing remains. -/
+theorem sweep_reads_next_entries (fd : FilterData) (hist : List Pub) (hrep : Rep (logC fd.log) hist)
+    (cur : Router.Cursor) (n : Nat) (hi : Issued (logC fd.log) cur) (hU : hist.length + n < U64) :
+    (fd.log.readv cur n).1.map (·.1) = (hist.drop (cursorAbs (logC fd.log) cur)).take n ∧
+    (fd.log.readv cur n).1.map (·.2.2) =
+      List.range' (cursorAbs (logC fd.log) cur) (fd.log.readv cur n).1.length ∧
+    (posNext (fd.log.readv cur n).2).1.2 = cursorAbs (logC fd.log) cur + (fd.log.readv cur n).1.length ∧
+    Issued (logC fd.log) (posNext (fd.log.readv cur n).2).1 ∧
+    ((posNext (fd.log.readv cur n).2).2 = true ↔
+      cursorAbs (logC fd.log) cur + (fd.log.readv cur n).1.length = hist.length) := by
+  obtain ⟨e1, e2, e3, _, e5⟩ := clog_readv_spec fd.log hist hrep cur n hi hU
+  obtain ⟨v1, v2, _⟩ := clog_readv_entries fd.log hist hrep cur n hi hU
+  rw [e1] at *
+  exact ⟨v1, v2, e2, e3, e5⟩
+
+/-- C01.2 (two consecutive sweeps compose, C13 `readv_compose`). The sweep that starts from the
+    continuation cursor of the previous one reads exactly what follows: together they are one
+    read of `n + m` entries. -/
+theorem consecutive_sweeps_compose (fd : FilterData) (hist : List Pub) (hrep : Rep (logC fd.log) hist)
+    (cur : Router.Cursor) (n m : Nat) (hi : Issued (logC fd.log) cur) (hU : hist.length + (n + m) < U64) :
+    (fd.log.readv cur n).1 ++ (fd.log.readv (posNext (fd.log.readv cur n).2).1 m).1 =
+      (fd.log.readv cur (n + m)).1 :=
+  clog_readv_compose fd.log hist hrep cur n m hi (by omega) (by omega) hU
+
+/-- C01.2 (later sweep, after more publishes). A cursor handed back by a sweep is not stale; as
+    long as its segment has not been evicted, a later sweep of the (grown) log starts exactly at
+    the cursor's offset: the offsets it forwards are `cur.2, cur.2+1, …`. -/
+theorem later_sweep_continues_at_cursor (fd' : FilterData) (hist' : List Pub) (hrep : Rep (logC fd'.log) hist')
+    (cur : Router.Cursor) (m : Nat) (hi : Issued (logC fd'.log) cur) (hfresh : (logC fd'.log).head ≤ cur.1)
+    (hU : hist'.length + m < U64) :
+    (fd'.log.readv cur m).1.map (·.2.2) = List.range' cur.2 (fd'.log.readv cur m).1.length := by
+  obtain ⟨_, v2, _⟩ := clog_readv_entries fd'.log hist' hrep cur m hi hU
+  have : cursorAbs (logC fd'.log) cur = cur.2 := by
+    unfold cursorAbs
+    have : ¬ cur.1 < (logC fd'.log).head := by omega
+    simp [this]
+  rw [this] at v2
+  exact v2
+
+/-- C01.2 (parking). A non-shared request is parked — status `FilterCaughtup` — exactly when the
+    read reported `Done` (the cursor reached the end of the log), unless the sweep ended with a
+    full link buffer (then the request stays scheduled). -/
+theorem parked_iff_caught_up (s s' : RState) (id : Nat) (c : Conn) (req req' : DataRequest)
+    (st : ConsumeStatus) (hc : getConn s id = some c) (hplain : req.group = none)
+    (h : forwardDeviceData s id req = .ok (s', req', st)) (hst : st ≠ .inflightFull) (hbf : st ≠ .bufferFull)
+    (hpos : 0 < s.config.maxOutgoingPacketCount)
+    (hlog : ∀ fd, s.datalog.native[req.filterIdx]? = some fd → ∃ hist, Rep (logC fd.log) hist ∧
+      Issued (logC fd.log) req.cursor ∧ hist.length + (MAX_INFLIGHT + s.config.maxOutgoingPacketCount) < U64) :
+    ∃ (n : Nat) (fd : FilterData), s.datalog.native[req.filterIdx]? = some fd ∧
+      req'.cursor = (posNext (fd.log.readv req.cursor n).2).1 ∧
+      (st = .filterCaughtup ↔ (posNext (fd.log.readv req.cursor n).2).2 = true) := by
+  have hg : reqGroup s req = none := by unfold reqGroup; rw [hplain]; rfl
+  obtain ⟨s1, rp, n, fd, hr, hfd, hreq, _, _, _, _, hcase, hnf⟩ := sweep_plain hc hg h hst
+  obtain ⟨_, hlen, _, _⟩ := sweepRetained_spec hr
+  obtain ⟨hist, hrep, hiss, hU⟩ := hlog fd hfd
+  refine ⟨n, fd, hfd, by rw [hreq]; rfl, ?_⟩
+  have hslots : sweepSlots s c req none ≤ MAX_INFLIGHT + s.config.maxOutgoingPacketCount := by
+    unfold sweepSlots Outgoing.freeSlots
+    simp only []
+    split <;> omega
+  rcases hcase with e | ⟨e, hor⟩ | ⟨e, _, hnd⟩
+  · exact absurd e hbf
+  · refine ⟨fun _ => ?_, fun _ => e⟩
+    rcases hor with hemp | hd
+    · unfold sweepPubs at hemp
+      obtain ⟨h1, h2⟩ := List.append_eq_nil_iff.mp hemp
+      have hent : (fd.log.readv req.cursor n).1 = [] := by simpa using h2
+      have hn : 0 < n := by
+        rw [h1] at hlen
+        simp only [List.length_nil, Nat.zero_add] at hlen
+        rw [hlen]
+        unfold sweepSlots Outgoing.freeSlots
+        simp only []
+        by_cases hq : req.qos = 0
+        · simp [hq, hpos]
+        · simp only [ne_eq, hq, not_false_eq_true, if_true]
+          have : c.out.freeSlots ≠ 0 := fun e0 => hnf ⟨hq, e0⟩
+          unfold Outgoing.freeSlots at this; omega
+      exact clog_readv_empty_done fd.log hist hrep req.cursor n hiss (by omega) hn hent
+    · exact hd
+  · constructor
+    · intro e'; rw [e] at e'; cases e'
+    · intro hd; rw [hd] at hnd; cases hnd
+
+/-- C01.2 (waking, one log). `Data::append` on a filter moves every request parked on that filter
+    to `notifications` (from where `handle_device_payload` re-tracks it and reschedules the
+    connection) and leaves none parked. -/
+theorem append_wakes_parked_waiters (s s' : RState) (idx : Nat) (p : Pub)
+    (h : appendToFilter s idx p = .ok s') :
+    ∃ fd fd', s.datalog.native[idx]? = some fd ∧ s'.notifications = s.notifications ++ fd.waiters ∧
+      s'.datalog.native[idx]? = some fd' ∧ fd'.waiters = [] := by
+  obtain ⟨fd, h1, h2, h3⟩ := appendToFilter_wakes h
+  exact ⟨fd, _, h1, h2, h3, rfl⟩
+
+/-- C01.2 (a subscriber that caught up is woken by the next matching publish). In a state
+    satisfying the invariant, if request `r` of connection `cid` is parked on a filter and a publish whose topic
+    matches that filter is accepted, then `(cid, r)` is in `notifications` afterwards, and the
+    only requests woken are those parked on matching filters. -/
+theorem caught_up_subscriber_is_woken (s s' : RState) (hi : DLInv s) (id : Nat) (p : Pub) (t : String)
+    (halias : p.alias = none) (ht : utf8? p.topic = some t)
+    (h : appendToCommitlog s id p = .ok (s', none)) (w : Nat × DataRequest) :
+    w ∈ s'.notifications ↔ w ∈ s.notifications ∨
+      ∃ (i : Nat) (fd : FilterData), s.datalog.native[i]? = some fd ∧ topicMatches t fd.filter = true ∧ w ∈ fd.waiters := by
+  obtain ⟨c, s1, p1, topic, hc, hres, htop, hdel⟩ := appendToCommitlog_accept h
+  obtain ⟨e1, e2, _, _, _, _, _, e8⟩ := resolveAlias_spec hres
+  have hpt : p1.topic = p.topic := e8 (Or.inl halias)
+  have htt : topic = t := by rw [hpt, ht] at htop; exact (Option.some.inj htop).symm
+  subst htt
+  have hi1 : DLInv s1 := hi.of_dkey (resolveAlias_dkey hres)
+  have hi2 : DLInv ((updateRetained s1 topic p1).g (.accepted (some id) p1 topic)) :=
+    hi1.of_dkey (by rw [dkey_g, updateRetained_dkey])
+  obtain ⟨_, hw⟩ := deliver_spec hi2 hdel
+  have hn : ((updateRetained s1 topic p1).g (.accepted (some id) p1 topic)).datalog.native = s.datalog.native := by
+    show (updateRetained s1 topic p1).datalog.native = _
+    rw [(updateRetained_same s1 topic p1).1, e1]
+  have hno : ((updateRetained s1 topic p1).g (.accepted (some id) p1 topic)).notifications = s.notifications := by
+    show (updateRetained s1 topic p1).notifications = _
+    rw [(updateRetained_same s1 topic p1).2, e2]
+  rw [hw w, hn, hno]
+
+/-! ### non-vacuity -/
+
+/-- the hypotheses are satisfiable: the initial state of a legal configuration is reachable -/
+example : Reachable ⟨10, 1024, 2, 10, .roundRobin⟩ (init ⟨10, 1024, 2, 10, .roundRobin⟩) ∧
+    1 ≤ (⟨10, 1024, 2, 10, .roundRobin⟩ : Config).maxSegmentSize ∧
+    1 ≤ (⟨10, 1024, 2, 10, .roundRobin⟩ : Config).maxSegmentCount :=
+  ⟨Reachable.init _, by decide, by decide⟩
+
+/-! ### C01.2 over the life of a subscription -/
+
+/-- C01 "after that subscription took effect". The cursor `next_native_offset` hands to a new
+    subscription is an issued, retained cursor of the filter's (well-formed) log standing right
+    behind everything appended so far: the subscription will see exactly the later appends. -/
+theorem subscription_starts_at_tail (s : RState) (filter : String) (hi : DLInv s) :
+    ∃ fd hist, (nextNativeOffset s filter).1.datalog.native[(nextNativeOffset s filter).2.1]? = some fd ∧
+      fd.filter = filter ∧ Rep (logC fd.log) hist ∧
+      Issued (logC fd.log) (nextNativeOffset s filter).2.2 ∧
+      (logC fd.log).head ≤ (nextNativeOffset s filter).2.2.1 ∧
+      (nextNativeOffset s filter).2.2.2 = hist.length :=
+  nextNativeOffset_tail hi
+
+/-- C01.2 (publishes are harmless `other` steps). Accepting a publish keeps every issued cursor of
+    every filter log issued and every log well formed; the log's history grows by exactly this
+    publish if the filter matches, else not at all. (So between two sweeps of a request the
+    premise of `delivery_is_prefix_partial` can only fail through eviction of the cursor's segment
+    — the retention proviso — or through the 2^64 bound.) -/
+theorem publish_keeps_cursors_issued (s s' : RState) (hi : DLInv s) (id : Nat) (p : Pub) (t : String)
+    (halias : p.alias = none) (ht : utf8? p.topic = some t)
+    (h : appendToCommitlog s id p = .ok (s', none))
+    (idx : Nat) (fd : FilterData) (hist : List Pub) (cur : Router.Cursor)
+    (hfd : s.datalog.native[idx]? = some fd) (hrep : Rep (logC fd.log) hist) (hiss : Issued (logC fd.log) cur) :
+    ∃ fd' hist', s'.datalog.native[idx]? = some fd' ∧ fd'.filter = fd.filter ∧ Rep (logC fd'.log) hist' ∧
+      Issued (logC fd'.log) cur ∧
+      hist' = (if topicMatches t fd.filter then hist ++ [{ p with alias := none, retain := false }] else hist) := by
+  obtain ⟨c, s1, p1, topic, hc, hres, htop, hdel⟩ := appendToCommitlog_accept h
+  obtain ⟨e1, _, _, _, _, _, _, e8⟩ := resolveAlias_spec hres
+  have hpt : p1.topic = p.topic := e8 (Or.inl halias)
+  have htt : topic = t := by rw [hpt, ht] at htop; exact (Option.some.inj htop).symm
+  subst htt
+  have hp1 : p1 = { p with alias := none } := by
+    unfold resolveAlias at hres
+    rw [halias] at hres
+    simp only [Except.ok.injEq, Prod.mk.injEq] at hres
+    exact hres.2.symm
+  have hi1 : DLInv s1 := hi.of_dkey (resolveAlias_dkey hres)
+  have hi2 : DLInv ((updateRetained s1 topic p1).g (.accepted (some id) p1 topic)) :=
+    hi1.of_dkey (by rw [dkey_g, updateRetained_dkey])
+  have hn : ((updateRetained s1 topic p1).g (.accepted (some id) p1 topic)).datalog.native = s.datalog.native := by
+    show (updateRetained s1 topic p1).datalog.native = _
+    rw [(updateRetained_same s1 topic p1).1, e1]
+  have := deliver_keeps_issued hi2 hdel idx fd hist cur (by rw [hn]; exact hfd) hrep hiss
+  rw [hp1] at this
+  exact this
+
+/-- C01.2 `delivery_is_prefix`, PARTIAL (per data request, any number of sweeps). Follow one
+    non-shared data request over any stretch of a run (`ReqRun`): sweeps — each started with the
+    request the previous sweep handed back, each contributing the log offsets it appended to the
+    connection's link buffer (`linkOffsets`, an observable) — interleaved with arbitrary other
+    router steps during which the request's cursor stays an issued, retained cursor of its filter
+    log (appends of new publishes are such steps unless they evict the cursor's segment — the
+    retention proviso). If the request starts from such a cursor (a new subscription does:
+    `subscription_starts_at_tail`), then the offsets forwarded for it are EXACTLY the consecutive
+    log offsets from the starting cursor — in order, no gap, no repeat, across all the sweeps — and
+    the request ends up right behind them. With `log_content` (each accepted matching publish is
+    one log entry) and `forward_carries_entry` this is "exactly the matching messages accepted
+    after the subscription took effect, once, in acceptance order".
+    Missing for the unrestricted run-level statement: that `consume` / `park` /
+    `notifications` / the graveyard thread each request unchanged from one sweep to the next
+    (RequestConservation) and that every other step satisfies the `other` premise (CursorSound). -/
+theorem delivery_is_prefix_partial (idx : Nat) (s s2 : RState) (req req2 : DataRequest) (offs : List Nat)
+    (hat : ReqAt idx s req.cursor) (hrun : ReqRun idx s req offs s2 req2) :
+    offs = List.range' req.cursor.2 offs.length ∧ req2.cursor.2 = req.cursor.2 + offs.length ∧
+    ReqAt idx s2 req2.cursor :=
+  reqRun_contiguous hrun hat
+
+/-- non-vacuity on a concrete state (kernel-evaluated): client `a` holds a non-shared request for
+    filter `t` at cursor `(0, 0)`; the filter's log has one entry. The sweep forwards exactly that
+    entry to `a`'s link, hands back the continuation cursor `(0, 1)` and reports `FilterCaughtup`.
+    (Runs that accept a publish cannot be kernel-evaluated: `String.fromUTF8?` does not reduce in
+    the kernel within reasonable memory.) -/
+example :
+    (match forwardDeviceData
+        { config := ⟨10, 1024, 2, 10, .roundRobin⟩, links := [{}],
+          conns := ⟨[some { clientId := "a", link := 0, clean := true, dynamicFilters := false, tracker := { id := "a" } }], []⟩,
+          datalog := { native := [{ filter := "t", log := ((CLog.Log.new 1024 2).append (⟨0, 0, false, false, [116], [1], none, [], false⟩ : Pub) 6).1 }],
+                       filterIndexes := [("t", 0)] } }
+        0 ⟨"t", 0, 0, (0, 0), false, none⟩ with
+     | .ok (s', r', st) => decide (st = .filterCaughtup ∧ (getLink s' 0).obuf.length = 1 ∧ r'.cursor = (0, 1))
+     | .error _ => false) = true := by decide
+
+/-- non-vacuity on a concrete reachable run (kernel-evaluated): after CONNECT, SUBSCRIBE `t` and the
+    handling of the packet, the filter `t` has log index 0 and the connection tracks one request
+    standing at the log's tail -/
+example :
+    (match run (init ⟨10, 1024, 2, 10, .roundRobin⟩)
+        [(.connect ⟨0, "a", true, false, 0, none⟩, []), (.push 0 (.subscribe 1 none [⟨"t", 0⟩]), []),
+         (.event 0 .deviceData, [])] with
+     | .ok s =>
+       (match getConn s 0 with
+        | some c => decide (s.datalog.filterIndexes = [("t", 0)] ∧ s.datalog.native.length = 1 ∧
+            c.tracker.requests.map (fun r => (r.filter, r.filterIdx, r.cursor, r.group)) = [("t", 0, (0, 0), none)])
+        | none => false)
+     | .error _ => false) = true := by rw [run_eq_runX]; decide
 
 end C01
